@@ -1272,6 +1272,10 @@ func (l *Listener) packetInput(data []byte, addr net.Addr) {
 		if sn != 0 {
 			return
 		}
+		// an out-of-band packet carries no sn (it reads as 0 here): it never resets a session
+		if fecFlag == typeOOB {
+			return
+		}
 		// Close will remove the session from listener's session map,
 		// So we can create a new session with the same addr below.
 		s.Close()
